@@ -556,7 +556,7 @@ impl Property for C02 {
     type Case = Case;
 
     fn fuzz(&self) -> Option<FuzzSpec> {
-        Some(FuzzSpec { target: "c02", jobs: 8, runs: 400_000, max_len: 512, seeds: 300 })
+        Some(FuzzSpec { target: "c02", jobs: 8, runs: 600_000, max_len: 512, seeds: 300 })
     }
 
     /// two bytes of read partition (high bytes of two cut selectors), then the input
